@@ -100,6 +100,11 @@ CLAIMED.update({
             'Necessary structural conditions of lifetime conservation on every path; segment arithmetic inside tail-split insertion is not decided.',
             'Trusts the probe element types as the model of non-trivial elements; may-effect summaries.',
             'DESIGN.md section 6 C03'),
+    'C17': ('other', 'corpus well-formedness under every standard and both compilers; cross-standard agreement of per-function static fingerprints; path rules per standard',
+            'Necessary conditions only: every probe TU compiles under c++11..2b (+GCH_DISABLE_CONCEPTS); each header function has the same reachable-primitive / '
+            'escaping-exception / word-writing / non-throwing fingerprint under every standard; a selection of path rules per standard. Histories are not replayed.',
+            'Trusts demangled-signature matching across standards; clang++ c++2b built with -U__cpp_if_consteval.',
+            'DESIGN.md section 6 C17'),
 })
 
 NOT_APPLICABLE = {
